@@ -40,7 +40,12 @@ fn bytes_of(f: &FileSpec) -> Vec<u8> {
     match (f.kind.as_str(), f.enc.as_str()) {
         ("badutf8", _) => {
             let mut v = f.text.as_bytes().to_vec();
-            v.extend_from_slice(&[b'/', b'/', 0xC3, 0x28, b'\n']);
+            // multi-byte characters in front of the malformed bytes, at both alignments
+            v.extend_from_slice("// \u{e9}\u{e9}\u{e9}\u{e9}\u{e9}\u{e9}\u{e9}\u{e9}\u{e9}\u{e9}\u{e9}\u{e9}\u{e9}\u{e9}\u{e9}\u{e9}\u{e9}\u{e9}\u{e9}\u{e9}".as_bytes());
+            if f.name.len() % 2 == 1 {
+                v.push(b'x');
+            }
+            v.extend_from_slice(&[0xC3, 0x28, b'\n']);
             v
         }
         ("badutf16", _) => {
@@ -152,6 +157,25 @@ impl Prop for C18Prop {
             let kind = if via_dir && kind == "missing" { "good".to_string() } else { kind };
             let link = kind == "good" && t.chance(1, 8);
             files.push(FileSpec { name, text, enc, kind, link });
+        }
+        // a family of files made from one template: identical up to a token that owns child
+        // lines (`if .. then`), different after it (state kept from one file to the next on the
+        // same worker would be keyed alike)
+        if t.chance(1, 3) {
+            let head = &all[t.below(all.len() as u32) as usize].1;
+            let k = 3 + t.below(4);
+            for j in 0..k {
+                let call = *t.pick(&[
+                    "Foo(1)",
+                    "SomeLongerRoutineName(Alpha, Beta, Gamma, Delta, Epsilon, Zeta, Eta, Theta, Iota, Kappa, Lambda, Mu, Nu, Xi)",
+                    "X := Y",
+                    "begin A; B; end",
+                    "Result := Compute(First + Second * Third, Fourth - Fifth, [One, Two, Three, Four, Five, Six, Seven, Eight, Nine])",
+                    "case Z of 1: A; 2: B; end",
+                ]);
+                let text = format!("{head}\nprocedure T;\nbegin\n  if Cond(1, 2) and Other(3) then\n    {call};\n  Done;\nend;\n");
+                files.push(FileSpec { name: format!("t{j:02}.pas"), text, enc: "utf8".into(), kind: "good".into(), link: false });
+            }
         }
         // an even number of failing files now and then (exit status must still be non-zero)
         if t.chance(1, 4) {
